@@ -487,6 +487,9 @@ func smallCorpus(c *ctx) []*mfile {
 	add(buildWebP(rng, webpOpt{kind: "vp8l", w: 100, h: 7, body: 100}), "small-webp-vp8l")
 	add(buildWebP(rng, webpOpt{kind: "vp8x", w: 1200, h: 900, icc: genProfile(rng, 350, false), flagICC: true, body: 60}), "small-webp-vp8x-icc")
 	add(buildWebP(rng, webpOpt{kind: "vp8x", w: 12, h: 9, icc: genProfile(rng, 50, false), flagICC: true, damage: "missing-iccp", body: 60}), "small-webp-vp8x-missing-iccp")
+	// present but empty: an ICCP chunk of length 0 (and a 1-byte one, padded)
+	add(buildWebP(rng, webpOpt{kind: "vp8x", w: 14, h: 9, icc: []byte{}, flagICC: true, body: 60}), "small-webp-vp8x-empty-iccp")
+	add(buildWebP(rng, webpOpt{kind: "vp8x", w: 15, h: 9, icc: []byte{0x42}, flagICC: true, body: 60}), "small-webp-vp8x-1-byte-iccp")
 	add(buildJPEG(rng, jpegOpt{w: 31, h: 21, precision: 8, ncomp: 3, nBefore: 2, nAfter: 1, body: 40, realTables: tables, noJFIF: true}), "small-jpeg-nojfif")
 	add(stdlibJPEG(rng, 37, 21, false), "small-jpeg-stdlib")
 	// bytes after the end of the RIFF chunk, and a RIFF size field that understates the file
@@ -949,6 +952,24 @@ func init() {
 		if c.thorough {
 			bodies = append(bodies, 4<<20, 8<<20-5000, 64<<20)
 		}
+		// a long tail of ancillary chunks (text, EXIF) between the profile and the image data: everything needed
+		// ends with iCCP, whatever the profile's size
+		for _, sz := range []int{300, 3000, 4096, 5000, 70000} {
+			g := buildPNG(rng, pngOpt{w: 100, h: 100, depth: 8, ctype: 2, nAnc: 3, icc: genProfile(rng, sz, sz%2 == 0), iccName: "p", iccLevel: 6, iccPos: 0, body: 1000, bigAnc: 45000})
+			g.Name = fmt.Sprintf("png-icc%d-then-135KB-of-ancillary-chunks", sz)
+			files = append(files, g)
+		}
+		// JPEGs whose frame header comes first and whose last needed structure is a large ICC segment (the cut at
+		// end_of_needed then falls right behind a segment several buffers long)
+		for k, sz := range []int{9000, 30000, 70000} {
+			jo := jpegOpt{w: 100, h: 100, precision: 8, ncomp: 3, progressive: k == 1, nBefore: 1, nAfter: 1, icc: genProfile(rng, sz, false), iccAfterSOF: true, body: 5000, realTables: tables}
+			if k == 1 {
+				jo.chunkSize = sz/3 + 1
+			}
+			g := buildJPEG(rng, jo)
+			g.Name = fmt.Sprintf("jpeg-sof-then-icc%d", sz)
+			files = append(files, g)
+		}
 		for _, body := range bodies {
 			for rep := 0; rep < c.n(4, 8); rep++ {
 				bodyFill = []string{"", "noff", "", "zero", "noff", "ff", "", "noff"}[rep%8]
@@ -1031,6 +1052,18 @@ func init() {
 							if gotT != stripData(base) {
 								w.res.fail(Failure{Seq: w.seq, Class: "C18:" + f.Fmt + ":truncated", Desc: fmt.Sprintf("loading %s cut at end_of_needed=%d from a %s differs from loading the whole file (loader %s)", f.Name, f.End, k.name, which),
 									Input: map[string]interface{}{"file": shortHex(f.Data[:f.End]), "loader": which, "source": k.name, "cut_at": f.End}, Got: short(gotT, 160), Want: short(stripData(base), 160)})
+								break
+							}
+						}
+					}
+					// the cut file from sources that hand over their last bytes together with the end-of-file condition
+					if f.End >= 0 && f.End <= len(f.Data) {
+						for _, es := range []sched{{EOFWithData: true, FailAfter: -1, Name: "all+eof"}, fixedSched(f.End, 4097, true, "4097+eof"), fixedSched(f.End, 65536, true, "65536+eof")} {
+							tr := w.loadBoth("meta_load", which, f.Data[:f.End], es, false)
+							w.res.count("truncated:"+which, f.Name+which+"trunc"+es.Name, true)
+							if tr.outcome() != base {
+								w.res.fail(Failure{Seq: w.seq, Class: "C18:" + f.Fmt + ":truncated", Desc: fmt.Sprintf("loading %s truncated at end_of_needed=%d (schedule %s: last bytes arrive with the end of file) differs from loading the whole file (loader %s)", f.Name, f.End, es.Name, which),
+									Input: fileInput(f, which, es), Got: short(tr.outcome(), 160), Want: short(base, 160)})
 								break
 							}
 						}
@@ -1123,6 +1156,25 @@ func init() {
 					wr, we := expectedReplay(in.data, s)
 					if o.NilStream || !bytes.Equal(o.Replay, wr) || o.End != we {
 						w.res.fail(Failure{Seq: w.seq, Class: "C19:replay", Desc: "autometa.Load's stream does not replay the complete input (" + in.name + ")", Input: desc, Got: fmt.Sprintf("%d bytes end=%s", len(o.Replay), o.End), Want: fmt.Sprintf("%d bytes end=%s", len(wr), we)})
+					}
+				}
+				// the same comparison with the readers callers actually pass (they expose Len, Seek, ReadAt: a loader
+				// that consults those behaves differently from the same loader behind autometa's wrappers)
+				if len(in.data) < 100000 {
+					for _, k := range concreteSources(w.ctx.out, false)[:3] {
+						wantK := "err"
+						for _, wh := range []string{"png", "jpeg", "webp"} {
+							if o, _ := loadConsumed(wh, k, in.data); strings.HasPrefix(o, "ok ") {
+								wantK = o
+								break
+							}
+						}
+						gotK, _ := loadConsumed("auto", k, in.data)
+						if gotK != wantK {
+							w.res.fail(Failure{Seq: w.seq, Class: "C19:differs:source-kind", Desc: "autometa.Load differs from the first specific loader that succeeds when both read from a " + k.name + " (" + in.name + ")",
+								Input: map[string]interface{}{"input": in.name, "bytes": len(in.data), "data": shortHex(in.data), "source": k.name}, Got: short(gotK, 160), Want: short(wantK, 160)})
+							break
+						}
 					}
 				}
 				if w.runner != nil && len(in.data) <= w.modelLimit() {
